@@ -17,7 +17,7 @@ namespace PanningControl
 
 /-- mirrors: PanningControlBuilder::build / PanningControl::new (default `Panning::CENTER`) -/
 def new (panning : Value α α) : PanningControl α :=
-  { panning := Parameter.new panning (0.0 : α), cmdPanning := none }
+  gen_body% { panning := Parameter.new panning Gen.panningControlDefault, cmdPanning := none }
 
 /-- mirrors: Effect::init (trait default: nothing) -/
 def init (s : PanningControl α) (_sampleRate _internalBufferSize : Nat) : PanningControl α := s
